@@ -17,7 +17,7 @@ DirClsEmpty == {"empty"}
 NamingsNum == {"Num"}
 OutClsFile == {"file"}
 OutClsAll == {"file_direct", "file_buf", "file_async", "stdout_direct", "stdout_buf", "stdout_async", "stderr_direct",
-              "stderr_buf", "stderr_async", "both_direct", "both_buf", "both_async", "pw_direct"}
+              "stderr_buf", "stderr_async", "both_direct", "both_buf", "both_async", "pw_direct", "buffer_direct"}
 OpClsStd == {"log_plain", "log_recursive", "log_recursive_brace", "log_recursive_to_writer", "log_brace_default",
              "log_brace_open", "adapt_dup"}
 View == <<dirc, naming, fmtc, append, outc, ops, hist>>
